@@ -103,11 +103,72 @@ def _helper_ok(fn):
                           ast.Nonlocal)):
             return False
     rets = [n for n in ast.walk(fn) if isinstance(n, ast.Return)]
-    if len(rets) > 1:
-        return False
-    if rets and rets[0] is not body[-1]:
-        return False
+    if len(rets) > 1 or (rets and rets[0] is not body[-1]):
+        # several exits: acceptable when they can be folded into one
+        return _single_exit([copy.deepcopy(s) for s in body], '_r') \
+            is not None
     return True
+
+
+def _has_return(node):
+    return any(isinstance(n, ast.Return) for n in ast.walk(node))
+
+
+def _falls_through(block):
+    if not block:
+        return True
+    last = block[-1]
+    if isinstance(last, (ast.Return, ast.Raise)):
+        return False
+    if isinstance(last, ast.If) and last.orelse:
+        return _falls_through(last.body) or _falls_through(last.orelse)
+    return True
+
+
+def _single_exit(body, ret_name):
+    """Rewrite a statement list whose ``return`` statements sit at the end
+    of (nested) if-branches into one without any return: the value goes
+    into ``ret_name`` and what follows an ``if`` is moved into the branches
+    that fall through.  None when a return sits inside a loop, try or
+    with."""
+    out = []
+    for i, st in enumerate(body):
+        rest = body[i + 1:]
+        if isinstance(st, ast.Return):
+            val = st.value if st.value is not None else ast.Constant(
+                value=None)
+            asg = ast.Assign(targets=[ast.Name(id=ret_name,
+                                               ctx=ast.Store())],
+                             value=val, type_comment=None)
+            ast.copy_location(asg, st)
+            ast.fix_missing_locations(asg)
+            out.append(asg)
+            return out
+        if isinstance(st, ast.If) and _has_return(st):
+            b_rest = [copy.deepcopy(x) for x in rest] if _falls_through(
+                st.body) else []
+            o_rest = [copy.deepcopy(x) for x in rest] if _falls_through(
+                st.orelse) else []
+            b = _single_exit(list(st.body) + b_rest, ret_name)
+            o = _single_exit(list(st.orelse) + o_rest, ret_name)
+            if b is None or o is None:
+                return None
+            new = ast.If(test=st.test, body=b or [ast.Pass()], orelse=o)
+            ast.copy_location(new, st)
+            ast.fix_missing_locations(new)
+            out.append(new)
+            return out
+        if _has_return(st):
+            return None
+        out.append(st)
+    # ran off the end: the function returns None here
+    asg = ast.Assign(targets=[ast.Name(id=ret_name, ctx=ast.Store())],
+                     value=ast.Constant(value=None), type_comment=None)
+    if body:
+        ast.copy_location(asg, body[-1])
+    ast.fix_missing_locations(asg)
+    out.append(asg)
+    return out
 
 
 def _strip_doc(body):
@@ -295,10 +356,25 @@ def _inline_at(site, helper, is_method):
         else:
             caller_names.add(loc)
     body = [copy.deepcopy(s) for s in _strip_doc(helper.body)]
+    nrets = sum(1 for b in body for n in ast.walk(b)
+                if isinstance(n, ast.Return))
+    multi = nrets > 1 or (nrets == 1 and not isinstance(body[-1],
+                                                        ast.Return))
+    if multi:
+        rname = fresh('_ret_' + helper.name.strip('_'))
+        body = _single_exit(body, rname)
+        if body is None:
+            return False
+        direct = None
     sub = _Subst(mapping, rename)
     body = [sub.visit(s) for s in body]
     ret = None
-    if body and isinstance(body[-1], ast.Return):
+    if multi:
+        ret = ast.Name(id=rname, ctx=ast.Load())
+        ast.copy_location(ret, call)
+        if isinstance(site.stmt, ast.Expr) and site.stmt.value is call:
+            ret = None
+    elif body and isinstance(body[-1], ast.Return):
         ret = body[-1].value
         body = body[:-1]
     lst = getattr(site.holder, site.field)
@@ -417,3 +493,1003 @@ def inline_new_helpers(trees):
         if not changed:
             break
     return done
+
+
+# --------------------------------------------------------------------------
+# Canonical forms.  Each pass rewrites an idiom into the form the rules were
+# written against; all of them preserve behaviour, so they can neither hide
+# nor create a violation - they only make the rules independent of which of
+# two equivalent spellings a maintainer prefers.
+
+def _signatures(trees):
+    """{bare name: (parameter names, is_method)} for functions, methods and
+    classes (through __init__) whose bare name is defined exactly once in
+    the non-test code of the package and whose signature has neither *args
+    nor **kwargs."""
+    seen = {}
+    for modname, tree in trees.items():
+        for node in tree.body:
+            if isinstance(node, ast.FunctionDef):
+                seen.setdefault(node.name, []).append((node, False))
+            elif isinstance(node, ast.ClassDef):
+                if _is_test_name(node.name):
+                    continue
+                for sub in node.body:
+                    if isinstance(sub, ast.FunctionDef):
+                        if sub.name == '__init__':
+                            seen.setdefault(node.name, []).append(
+                                (sub, True))
+                        else:
+                            static = any(
+                                isinstance(d, ast.Name) and d.id in (
+                                    'staticmethod', 'classmethod')
+                                for d in sub.decorator_list)
+                            seen.setdefault(sub.name, []).append(
+                                (sub, not static))
+    out = {}
+    for name, lst in seen.items():
+        if len(lst) != 1 or name.startswith('__') or _is_test_name(name):
+            continue
+        fn, is_method = lst[0]
+        a = fn.args
+        if a.vararg or a.kwarg or a.posonlyargs:
+            continue
+        params = [x.arg for x in a.args]
+        if is_method:
+            params = params[1:]
+        out[name] = (params, is_method, fn.name == '__init__')
+    return out
+
+
+def keywords_to_positional(trees):
+    """``f(a, c=x)`` -> ``f(a, x)`` wherever the callee is known by a unique
+    name and the keyword names the next positional parameter."""
+    sigs = _signatures(trees)
+    n = 0
+    for tree in trees.values():
+        for call in ast.walk(tree):
+            if not isinstance(call, ast.Call) or not call.keywords:
+                continue
+            if isinstance(call.func, ast.Attribute):
+                name, via_attr = call.func.attr, True
+            elif isinstance(call.func, ast.Name):
+                name, via_attr = call.func.id, False
+            else:
+                continue
+            sig = sigs.get(name)
+            if not sig:
+                continue
+            params, is_method, is_ctor = sig
+            if is_method and not is_ctor and not via_attr:
+                continue
+            if not is_method and via_attr and not is_ctor:
+                # module.function(...) is fine, obj.function unlikely
+                pass
+            if any(isinstance(a, ast.Starred) for a in call.args) or any(
+                    k.arg is None for k in call.keywords):
+                continue
+            kw = {k.arg: k for k in call.keywords}
+            if not set(kw) <= set(params):
+                continue
+            moved = False
+            while len(call.args) < len(params) and \
+                    params[len(call.args)] in kw:
+                k = kw.pop(params[len(call.args)])
+                call.args.append(k.value)
+                call.keywords.remove(k)
+                moved = True
+            n += moved
+    return n
+
+
+def key_loops_to_items(trees):
+    """``for k in d: v = d[k]; ...`` -> ``for k, v in d.items(): ...``"""
+    n = 0
+    for tree in trees.values():
+        for loop in ast.walk(tree):
+            if not isinstance(loop, ast.For) or not isinstance(
+                    loop.target, ast.Name) or not loop.body:
+                continue
+            d = loop.iter
+            if isinstance(d, ast.Call) and isinstance(
+                    d.func, ast.Attribute) and d.func.attr == 'keys' and \
+                    not d.args:
+                d = d.func.value
+            if not _simple(d) or isinstance(d, ast.Constant):
+                continue
+            first = loop.body[0]
+            if not (isinstance(first, ast.Assign) and len(first.targets) == 1
+                    and isinstance(first.targets[0], ast.Name)
+                    and isinstance(first.value, ast.Subscript)
+                    and ast.dump(first.value.value) == ast.dump(d)
+                    and isinstance(first.value.slice, ast.Name)
+                    and first.value.slice.id == loop.target.id):
+                continue
+            if len(loop.body) == 1:
+                continue
+            v = first.targets[0]
+            loop.target = ast.copy_location(ast.Tuple(
+                elts=[ast.Name(id=loop.target.id, ctx=ast.Store()),
+                      ast.Name(id=v.id, ctx=ast.Store())],
+                ctx=ast.Store()), loop.target)
+            loop.iter = ast.copy_location(ast.Call(
+                func=ast.Attribute(value=d, attr='items', ctx=ast.Load()),
+                args=[], keywords=[]), loop.iter)
+            ast.fix_missing_locations(loop.target)
+            ast.fix_missing_locations(loop.iter)
+            del loop.body[0]
+            n += 1
+    return n
+
+
+def canonicalise(trees):
+    """All canonical-form passes, repeated until nothing changes (one pass
+    can expose work for another); returns {pass: number of rewrites}."""
+    passes = [
+        keywords_to_positional, key_loops_to_items,
+        loop_element_unpacking, append_loops_to_comprehensions,
+        expand_update_displays, comprehension_key_loops,
+        propagate_pure_aliases, ifexp_statements, split_parallel_copies,
+        sink_branch_temps, thread_none_tests, unnegate_ifs,
+        inline_single_use_temps,
+    ]
+    total = {}
+    for _round in range(4):
+        changed = 0
+        for p in passes:
+            k = p(trees)
+            total[p.__name__] = total.get(p.__name__, 0) + k
+            changed += k
+        if not changed:
+            break
+    return total
+
+
+def unnegate_ifs(trees):
+    """``if not c: A else: B`` -> ``if c: B else: A`` (both branches
+    present, no elif chain involved)."""
+    n = 0
+    for tree in trees.values():
+        for node in ast.walk(tree):
+            if isinstance(node, ast.If) and node.orelse and isinstance(
+                    node.test, ast.UnaryOp) and isinstance(
+                    node.test.op, ast.Not) and not (
+                    len(node.orelse) == 1 and isinstance(
+                        node.orelse[0], ast.If)):
+                node.test = node.test.operand
+                node.body, node.orelse = node.orelse, node.body
+                n += 1
+    return n
+
+
+def _fn_scopes(tree):
+    for n in ast.walk(tree):
+        if isinstance(n, (ast.FunctionDef, ast.AsyncFunctionDef)):
+            yield n
+
+
+def _blocks(fn):
+    """Every statement list inside ``fn`` (not descending into nested
+    function or class definitions)."""
+    stack = [fn]
+    while stack:
+        n = stack.pop()
+        for f in ('body', 'orelse', 'finalbody'):
+            lst = getattr(n, f, None)
+            if isinstance(lst, list) and lst and isinstance(
+                    lst[0], ast.stmt):
+                yield lst
+                for s in lst:
+                    if not isinstance(s, (ast.FunctionDef, ast.ClassDef,
+                                          ast.AsyncFunctionDef)):
+                        stack.append(s)
+        if isinstance(n, ast.Try):
+            for h in n.handlers:
+                stack.append(h)
+        if hasattr(n, 'cases'):
+            for c in n.cases:
+                stack.append(c)
+
+
+def _header_exprs(st):
+    if isinstance(st, (ast.Expr, ast.Return)):
+        return [st.value] if st.value is not None else []
+    if isinstance(st, ast.Assign):
+        return [st.value] + list(st.targets)
+    if isinstance(st, ast.AugAssign):
+        return [st.value, st.target]
+    if isinstance(st, ast.AnnAssign):
+        return ([st.value] if st.value is not None else []) + [st.target]
+    if isinstance(st, ast.If):
+        return [st.test]
+    if isinstance(st, ast.For):
+        return [st.iter]
+    if isinstance(st, ast.Raise):
+        return [x for x in (st.exc, st.cause) if x is not None]
+    if isinstance(st, ast.Assert):
+        return [st.test]
+    return []
+
+
+def inline_single_use_temps(trees):
+    """``t = e`` immediately followed by the only statement that reads ``t``
+    (once, outside lambdas and comprehensions) -> ``e`` in place of ``t``."""
+    total = 0
+    for tree in trees.values():
+        for fn in _fn_scopes(tree):
+            params = {a.arg for a in fn.args.args + fn.args.kwonlyargs
+                      + fn.args.posonlyargs}
+            if fn.args.vararg:
+                params.add(fn.args.vararg.arg)
+            if fn.args.kwarg:
+                params.add(fn.args.kwarg.arg)
+            for _round in range(6):
+                stores, loads, banned = {}, {}, set(params)
+                for n in ast.walk(fn):
+                    if isinstance(n, ast.Name):
+                        if isinstance(n.ctx, ast.Load):
+                            loads[n.id] = loads.get(n.id, 0) + 1
+                        else:
+                            stores[n.id] = stores.get(n.id, 0) + 1
+                    elif isinstance(n, (ast.Global, ast.Nonlocal)):
+                        banned |= set(n.names)
+                    elif isinstance(n, ast.ExceptHandler) and n.name:
+                        banned.add(n.name)
+                    elif n is not fn and isinstance(
+                            n, (ast.FunctionDef, ast.AsyncFunctionDef,
+                                ast.Lambda, ast.ClassDef)):
+                        # names touched in nested scopes are left alone
+                        for m in ast.walk(n):
+                            if isinstance(m, ast.Name):
+                                banned.add(m.id)
+                            elif isinstance(m, ast.arg):
+                                banned.add(m.arg)
+                changed = False
+                for blk in _blocks(fn):
+                    i = 0
+                    while i + 1 < len(blk):
+                        s, nxt = blk[i], blk[i + 1]
+                        i += 1
+                        if not (isinstance(s, ast.Assign)
+                                and len(s.targets) == 1
+                                and isinstance(s.targets[0], ast.Name)):
+                            continue
+                        t = s.targets[0].id
+                        if t in banned or stores.get(t) != 1 or \
+                                loads.get(t) != 1:
+                            continue
+                        if any(isinstance(x, (ast.Yield, ast.YieldFrom,
+                                              ast.Await, ast.NamedExpr,
+                                              ast.Lambda))
+                               for x in ast.walk(s.value)):
+                            continue
+                        # the single read must sit in the header of nxt,
+                        # outside comprehensions
+                        hit = None
+                        pure = _no_calls(s.value)
+                        for e in _header_exprs(nxt):
+                            # (node, parent, field, index, conditionally
+                            # evaluated?)
+                            stack = [(e, None, None, None, False)]
+                            while stack:
+                                x, par, fld, idx, cnd = stack.pop()
+                                if isinstance(x, (ast.ListComp, ast.SetComp,
+                                                  ast.DictComp,
+                                                  ast.GeneratorExp,
+                                                  ast.Lambda)):
+                                    continue
+                                if isinstance(x, ast.Name) and x.id == t \
+                                        and isinstance(x.ctx, ast.Load):
+                                    hit = (x, par, fld, idx, cnd)
+                                for f2, v in ast.iter_fields(x):
+                                    if isinstance(v, ast.AST):
+                                        c2 = cnd or (isinstance(
+                                            x, ast.IfExp) and f2 in (
+                                            'body', 'orelse'))
+                                        stack.append((v, x, f2, None, c2))
+                                    elif isinstance(v, list):
+                                        for j, y in enumerate(v):
+                                            if not isinstance(y, ast.AST):
+                                                continue
+                                            c2 = cnd or (isinstance(
+                                                x, ast.BoolOp) and j > 0
+                                            ) or (isinstance(
+                                                x, ast.Compare) and
+                                                f2 == 'comparators'
+                                                and j > 0)
+                                            stack.append((y, x, f2, j, c2))
+                        if hit is None:
+                            continue
+                        x, par, fld, idx, cnd = hit
+                        if cnd and not pure:
+                            continue        # would become conditional
+                        if isinstance(nxt, ast.For) and not pure:
+                            continue        # keep phases apart
+                        if par is None:
+                            # the header expression is the name itself
+                            for f2, v in ast.iter_fields(nxt):
+                                if v is x:
+                                    setattr(nxt, f2, s.value)
+                                elif isinstance(v, list):
+                                    for j, y in enumerate(v):
+                                        if y is x:
+                                            v[j] = s.value
+                        elif idx is None:
+                            setattr(par, fld, s.value)
+                        else:
+                            getattr(par, fld)[idx] = s.value
+                        blk.remove(s)
+                        i -= 1
+                        changed = True
+                        total += 1
+                        loads[t] = 0
+                if not changed:
+                    break
+    return total
+
+
+def _branch_final_assigns(block, name, acc):
+    """Collect the assignments ``name = ...`` that end every path through
+    ``block``; False when some path does not end in one."""
+    if not block:
+        return False
+    last = block[-1]
+    if isinstance(last, ast.Assign) and len(last.targets) == 1 and \
+            isinstance(last.targets[0], ast.Name) and \
+            last.targets[0].id == name:
+        acc.append(last)
+        return True
+    if isinstance(last, ast.If) and last.orelse:
+        return _branch_final_assigns(last.body, name, acc) and \
+            _branch_final_assigns(last.orelse, name, acc)
+    return False
+
+
+def sink_branch_temps(trees):
+    """``if c: t = A else: t = B`` followed by ``x = t`` (t read nowhere
+    else) -> ``if c: x = A else: x = B``; ``x = x`` is dropped and an
+    ``if c: pass else: S`` becomes ``if not c: S``."""
+    n = 0
+    for tree in trees.values():
+        for fn in _fn_scopes(tree):
+            loads = {}
+            for m in ast.walk(fn):
+                if isinstance(m, ast.Name) and isinstance(m.ctx, ast.Load):
+                    loads[m.id] = loads.get(m.id, 0) + 1
+            for blk in _blocks(fn):
+                i = 0
+                while i + 1 < len(blk):
+                    s, nxt = blk[i], blk[i + 1]
+                    i += 1
+                    if not (isinstance(s, ast.If) and s.orelse and
+                            isinstance(nxt, ast.Assign) and
+                            len(nxt.targets) == 1 and
+                            isinstance(nxt.targets[0], ast.Name) and
+                            isinstance(nxt.value, ast.Name)):
+                        continue
+                    t, x = nxt.value.id, nxt.targets[0].id
+                    if loads.get(t) != 1 or t == x:
+                        continue
+                    acc = []
+                    if not _branch_final_assigns([s], t, acc):
+                        continue
+                    # t must not be assigned anywhere else
+                    others = [m for m in ast.walk(fn)
+                              if isinstance(m, ast.Name) and m.id == t
+                              and isinstance(m.ctx, ast.Store)]
+                    if len(others) != len(acc):
+                        continue
+                    for a in acc:
+                        a.targets[0].id = x
+                    blk.remove(nxt)
+                    n += 1
+            # x = x  ->  dropped
+            for blk in _blocks(fn):
+                for st in list(blk):
+                    if isinstance(st, ast.Assign) and len(st.targets) == 1 \
+                            and isinstance(st.targets[0], ast.Name) and \
+                            isinstance(st.value, ast.Name) and \
+                            st.value.id == st.targets[0].id:
+                        if len(blk) > 1:
+                            blk.remove(st)
+                        else:
+                            blk[blk.index(st)] = ast.copy_location(
+                                ast.Pass(), st)
+            # if c: pass else: S  ->  if not c: S
+            for m in ast.walk(fn):
+                if isinstance(m, ast.If) and m.orelse and len(m.body) == 1 \
+                        and isinstance(m.body[0], ast.Pass):
+                    m.test = ast.copy_location(
+                        ast.UnaryOp(op=ast.Not(), operand=m.test), m.test)
+                    m.body, m.orelse = m.orelse, []
+    return n
+
+
+def loop_element_unpacking(trees):
+    """``for t in L: a, b = t; ...`` -> ``for a, b in L: ...`` and
+    ``for t in L: ... t[0] ... t[1] ...`` (t used only through constant
+    indices 0..k-1) -> ``for t_0, t_1 in L: ... t_0 ... t_1 ...``."""
+    n = 0
+    for tree in trees.values():
+        for fn in _fn_scopes(tree):
+            fn_names = {m.id for m in ast.walk(fn) if isinstance(m, ast.Name)}
+            for loop in ast.walk(fn):
+                if not isinstance(loop, ast.For) or not isinstance(
+                        loop.target, ast.Name) or not loop.body:
+                    continue
+                t = loop.target.id
+                uses = [m for b in loop.body for m in ast.walk(b)
+                        if isinstance(m, ast.Name) and m.id == t]
+                outside = sum(1 for m in ast.walk(fn) if isinstance(
+                    m, ast.Name) and m.id == t) - len(uses) - 1
+                if outside > 0 or not uses:
+                    continue
+                first = loop.body[0]
+                if len(uses) == 1 and isinstance(first, ast.Assign) and \
+                        first.value is uses[0] and len(first.targets) == 1 \
+                        and isinstance(first.targets[0], ast.Tuple) and all(
+                            isinstance(e, ast.Name)
+                            for e in first.targets[0].elts) and \
+                        len(loop.body) > 1:
+                    loop.target = first.targets[0]
+                    del loop.body[0]
+                    n += 1
+                    continue
+                # only t[<int>] uses
+                parents = {}
+                for b in loop.body:
+                    for m in ast.walk(b):
+                        for c in ast.iter_child_nodes(m):
+                            parents[c] = m
+                idx = set()
+                ok = True
+                for u in uses:
+                    p = parents.get(u)
+                    if isinstance(p, ast.Subscript) and p.value is u and \
+                            isinstance(p.slice, ast.Constant) and \
+                            isinstance(p.slice.value, int) and \
+                            p.slice.value >= 0 and isinstance(
+                                p.ctx, ast.Load):
+                        idx.add(p.slice.value)
+                    else:
+                        ok = False
+                if not ok or idx != set(range(len(idx))) or len(idx) < 2:
+                    continue
+                names = []
+                for i in sorted(idx):
+                    nm = '%s_%d' % (t, i)
+                    while nm in fn_names:
+                        nm += '_'
+                    fn_names.add(nm)
+                    names.append(nm)
+                for u in uses:
+                    p = parents[u]
+                    new = ast.copy_location(
+                        ast.Name(id=names[p.slice.value], ctx=ast.Load()), p)
+                    gp = parents.get(p)
+                    if gp is None:
+                        continue
+                    for f2, v in ast.iter_fields(gp):
+                        if v is p:
+                            setattr(gp, f2, new)
+                        elif isinstance(v, list):
+                            for j, y in enumerate(v):
+                                if y is p:
+                                    v[j] = new
+                loop.target = ast.copy_location(ast.Tuple(
+                    elts=[ast.Name(id=x, ctx=ast.Store()) for x in names],
+                    ctx=ast.Store()), loop.target)
+                ast.fix_missing_locations(loop.target)
+                n += 1
+    return n
+
+
+def split_parallel_copies(trees):
+    """``a, b = x, y`` with simple right-hand sides that do not mention the
+    targets -> ``a = x; b = y``."""
+    n = 0
+    for tree in trees.values():
+        for fn in _fn_scopes(tree):
+            for blk in _blocks(fn):
+                i = 0
+                while i < len(blk):
+                    st = blk[i]
+                    i += 1
+                    if not (isinstance(st, ast.Assign) and
+                            len(st.targets) == 1 and
+                            isinstance(st.targets[0], ast.Tuple) and
+                            isinstance(st.value, ast.Tuple) and
+                            len(st.targets[0].elts) == len(st.value.elts)
+                            and all(isinstance(e, ast.Name)
+                                    for e in st.targets[0].elts)
+                            and all(_simple(e) for e in st.value.elts)):
+                        continue
+                    tn = {e.id for e in st.targets[0].elts}
+                    vn = {m.id for e in st.value.elts for m in ast.walk(e)
+                          if isinstance(m, ast.Name)}
+                    if tn & vn:
+                        continue
+                    new = []
+                    for t, v in zip(st.targets[0].elts, st.value.elts):
+                        a = ast.Assign(targets=[t], value=v,
+                                       type_comment=None)
+                        ast.copy_location(a, st)
+                        new.append(a)
+                    j = blk.index(st)
+                    blk[j:j + 1] = new
+                    i = j + len(new)
+                    n += 1
+    return n
+
+
+def thread_none_tests(trees):
+    """``if c: x = None else: ...; x = (a, b)`` directly followed by
+    ``if x is not None: T [else: E]`` -> T / E moved into the branches
+    whose final assignment decides the test (None constant versus a
+    tuple/list/dict display, which is never None)."""
+    n = 0
+
+    def known(v):
+        if isinstance(v, ast.Constant) and v.value is None:
+            return 'none'
+        if isinstance(v, (ast.Tuple, ast.List, ast.Dict, ast.Set,
+                          ast.ListComp, ast.DictComp, ast.SetComp,
+                          ast.JoinedStr)):
+            return 'value'
+        if isinstance(v, ast.Constant):
+            return 'value'
+        return None
+
+    def place(block, name, when_none, when_value):
+        last = block[-1]
+        if isinstance(last, ast.If) and last.orelse and not (
+                isinstance(last, ast.Assign)):
+            place(last.body, name, when_none, when_value)
+            place(last.orelse, name, when_none, when_value)
+            return
+        k = known(last.value)
+        extra = when_none if k == 'none' else when_value
+        block.extend(copy.deepcopy(x) for x in extra)
+
+    for tree in trees.values():
+        for fn in _fn_scopes(tree):
+            for blk in _blocks(fn):
+                i = 0
+                while i + 1 < len(blk):
+                    s, t = blk[i], blk[i + 1]
+                    i += 1
+                    if not (isinstance(s, ast.If) and s.orelse and
+                            isinstance(t, ast.If)):
+                        continue
+                    test = t.test
+                    neg = False
+                    if isinstance(test, ast.UnaryOp) and isinstance(
+                            test.op, ast.Not):
+                        test, neg = test.operand, True
+                    if not (isinstance(test, ast.Compare) and
+                            len(test.ops) == 1 and
+                            isinstance(test.left, ast.Name) and
+                            isinstance(test.comparators[0], ast.Constant)
+                            and test.comparators[0].value is None and
+                            isinstance(test.ops[0], (ast.Is, ast.IsNot))):
+                        continue
+                    x = test.left.id
+                    acc = []
+                    if not _branch_final_assigns([s], x, acc):
+                        continue
+                    if any(known(a.value) is None for a in acc):
+                        continue
+                    is_none_test = isinstance(test.ops[0], ast.Is) != neg
+                    when_none = t.body if is_none_test else t.orelse
+                    when_value = t.orelse if is_none_test else t.body
+                    place([s], x, when_none, when_value)
+                    blk.remove(t)
+                    n += 1
+                    # x = None that nothing reads any more is dropped
+                    inside = {id(m) for m in ast.walk(s)}
+                    read_outside = any(
+                        isinstance(m, ast.Name) and m.id == x and
+                        isinstance(m.ctx, ast.Load) and id(m) not in inside
+                        for m in ast.walk(fn))
+                    if not read_outside:
+                        for a in acc:
+                            if known(a.value) != 'none':
+                                continue
+                            for b2 in _blocks(s):
+                                if a in b2:
+                                    k = b2.index(a)
+                                    later = any(
+                                        isinstance(m, ast.Name) and
+                                        m.id == x and
+                                        isinstance(m.ctx, ast.Load)
+                                        for y in b2[k + 1:]
+                                        for m in ast.walk(y))
+                                    if not later:
+                                        if len(b2) > 1:
+                                            b2.remove(a)
+                                        else:
+                                            b2[k] = ast.copy_location(
+                                                ast.Pass(), a)
+    return n
+
+
+def ifexp_statements(trees):
+    """``return A if c else B`` -> ``if c: return A else: return B`` (the
+    same for a plain assignment of a conditional expression)."""
+    n = 0
+    for tree in trees.values():
+        for fn in _fn_scopes(tree):
+            for blk in _blocks(fn):
+                for k, st in enumerate(list(blk)):
+                    v = getattr(st, 'value', None)
+                    if not isinstance(v, ast.IfExp):
+                        continue
+                    if isinstance(st, ast.Return):
+                        a = ast.Return(value=v.body)
+                        b = ast.Return(value=v.orelse)
+                    elif isinstance(st, ast.Assign) and len(
+                            st.targets) == 1 and isinstance(
+                            st.targets[0], ast.Name):
+                        a = ast.Assign(targets=[copy.deepcopy(
+                            st.targets[0])], value=v.body,
+                            type_comment=None)
+                        b = ast.Assign(targets=[copy.deepcopy(
+                            st.targets[0])], value=v.orelse,
+                            type_comment=None)
+                    else:
+                        continue
+                    new = ast.If(test=v.test, body=[a], orelse=[b])
+                    for x in (a, b, new):
+                        ast.copy_location(x, st)
+                    ast.fix_missing_locations(new)
+                    blk[blk.index(st)] = new
+                    n += 1
+    return n
+
+
+def _no_calls(e):
+    return not any(isinstance(x, (ast.Call, ast.Await, ast.Yield,
+                                  ast.YieldFrom, ast.NamedExpr, ast.Lambda,
+                                  ast.ListComp, ast.DictComp, ast.SetComp,
+                                  ast.GeneratorExp))
+                   for x in ast.walk(e))
+
+
+def expand_update_displays(trees):
+    """``X.update({k1: v1, k2: v2})`` as a statement, X without calls ->
+    ``X[k1] = v1; X[k2] = v2`` (same order)."""
+    n = 0
+    for tree in trees.values():
+        for fn in _fn_scopes(tree):
+            for blk in _blocks(fn):
+                for st in list(blk):
+                    if not (isinstance(st, ast.Expr) and
+                            isinstance(st.value, ast.Call)):
+                        continue
+                    c = st.value
+                    if not (isinstance(c.func, ast.Attribute) and
+                            c.func.attr == 'update' and len(c.args) == 1
+                            and not c.keywords and
+                            isinstance(c.args[0], ast.Dict) and
+                            c.args[0].keys and
+                            all(k is not None for k in c.args[0].keys)
+                            and _no_calls(c.func.value)):
+                        continue
+                    new = []
+                    for k, v in zip(c.args[0].keys, c.args[0].values):
+                        a = ast.Assign(targets=[ast.Subscript(
+                            value=copy.deepcopy(c.func.value), slice=k,
+                            ctx=ast.Store())], value=v, type_comment=None)
+                        ast.copy_location(a, st)
+                        ast.fix_missing_locations(a)
+                        new.append(a)
+                    j = blk.index(st)
+                    blk[j:j + 1] = new
+                    n += 1
+    return n
+
+
+def comprehension_key_loops(trees):
+    """``{k: d[k] for k in d if ...}`` -> ``{k: v for k, v in d.items()
+    if ...}`` (any comprehension whose only use of ``d`` besides the
+    iterable is ``d[k]``)."""
+    n = 0
+    for tree in trees.values():
+        for comp in ast.walk(tree):
+            if not isinstance(comp, (ast.ListComp, ast.SetComp, ast.DictComp,
+                                     ast.GeneratorExp)):
+                continue
+            if len(comp.generators) != 1:
+                continue
+            g = comp.generators[0]
+            if not isinstance(g.target, ast.Name) or not _simple(g.iter) \
+                    or isinstance(g.iter, ast.Constant):
+                continue
+            k = g.target.id
+            dtxt = ast.dump(g.iter)
+            parts = list(g.ifs)
+            if isinstance(comp, ast.DictComp):
+                parts += [comp.key, comp.value]
+            else:
+                parts += [comp.elt]
+            subs = []
+            other = False
+            for p in parts:
+                for x in ast.walk(p):
+                    if isinstance(x, ast.Subscript) and ast.dump(
+                            x.value) == dtxt and isinstance(
+                            x.slice, ast.Name) and x.slice.id == k:
+                        subs.append(x)
+            if not subs:
+                continue
+            allnames = {m.id for m in ast.walk(tree)
+                        if isinstance(m, ast.Name)}
+            v = k + '_value'
+            while v in allnames:
+                v += '_'
+
+            class R(ast.NodeTransformer):
+                def visit_Subscript(self, node):
+                    if any(node is s for s in subs):
+                        return ast.copy_location(
+                            ast.Name(id=v, ctx=ast.Load()), node)
+                    return self.generic_visit(node)
+            r = R()
+            g.ifs = [r.visit(x) for x in g.ifs]
+            if isinstance(comp, ast.DictComp):
+                comp.key = r.visit(comp.key)
+                comp.value = r.visit(comp.value)
+            else:
+                comp.elt = r.visit(comp.elt)
+            g.target = ast.copy_location(ast.Tuple(
+                elts=[ast.Name(id=k, ctx=ast.Store()),
+                      ast.Name(id=v, ctx=ast.Store())], ctx=ast.Store()),
+                g.target)
+            g.iter = ast.copy_location(ast.Call(func=ast.Attribute(
+                value=g.iter, attr='items', ctx=ast.Load()), args=[],
+                keywords=[]), g.iter)
+            ast.fix_missing_locations(comp)
+            n += 1
+    return n
+
+
+def propagate_pure_aliases(trees):
+    """``t = self.a.b`` / ``t = x['k']`` (a read without calls, t assigned
+    once, nothing in the function stores to what was read or to a prefix
+    of it) -> every read of ``t`` becomes the expression itself."""
+    n = 0
+    for tree in trees.values():
+        for fn in _fn_scopes(tree):
+            params = {a.arg for a in fn.args.args + fn.args.kwonlyargs
+                      + fn.args.posonlyargs}
+            for _round in range(4):
+                stores, store_txt, banned = {}, set(), set()
+                for m in ast.walk(fn):
+                    if isinstance(m, ast.Name) and not isinstance(
+                            m.ctx, ast.Load):
+                        stores[m.id] = stores.get(m.id, 0) + 1
+                    if isinstance(m, (ast.Attribute, ast.Subscript)) and \
+                            not isinstance(m.ctx, ast.Load):
+                        store_txt.add(ast.unparse(m))
+                    if isinstance(m, (ast.Global, ast.Nonlocal)):
+                        banned |= set(m.names)
+                    if m is not fn and isinstance(
+                            m, (ast.FunctionDef, ast.AsyncFunctionDef,
+                                ast.Lambda, ast.ClassDef)):
+                        for y in ast.walk(m):
+                            if isinstance(y, ast.Name):
+                                banned.add(y.id)
+                mutated = set()
+                for m in ast.walk(fn):
+                    if isinstance(m, ast.Call) and isinstance(
+                            m.func, ast.Attribute) and m.func.attr in (
+                            'pop', 'update', 'clear', 'append', 'remove',
+                            'setdefault', 'insert', 'extend', 'popitem',
+                            'sort', 'reverse', 'add', 'discard'):
+                        mutated.add(ast.unparse(m.func.value))
+                    if isinstance(m, ast.Delete):
+                        for tg in m.targets:
+                            if isinstance(tg, (ast.Subscript,
+                                               ast.Attribute)):
+                                mutated.add(ast.unparse(tg.value))
+                changed = False
+                for blk in _blocks(fn):
+                    for st in list(blk):
+                        if not (isinstance(st, ast.Assign) and
+                                len(st.targets) == 1 and
+                                isinstance(st.targets[0], ast.Name)):
+                            continue
+                        t = st.targets[0].id
+                        e = st.value
+                        if t in banned or t in params or \
+                                stores.get(t) != 1:
+                            continue
+                        if not isinstance(e, (ast.Attribute, ast.Subscript)) \
+                                or not _no_calls(e):
+                            continue
+                        # prefixes of e, and the names it reads
+                        pre, cur = [], e
+                        while isinstance(cur, (ast.Attribute,
+                                               ast.Subscript)):
+                            pre.append(ast.unparse(cur))
+                            cur = cur.value
+                        if not isinstance(cur, ast.Name):
+                            continue
+                        if any(p in store_txt for p in pre):
+                            # allowed when every read of the alias comes
+                            # before (or in the right-hand side of) the
+                            # first statement that stores there
+                            k0 = blk.index(st)
+                            first_store = None
+                            for j in range(k0 + 1, len(blk)):
+                                if any(isinstance(m, (ast.Attribute,
+                                                      ast.Subscript))
+                                       and not isinstance(m.ctx, ast.Load)
+                                       and ast.unparse(m) in pre
+                                       for m in ast.walk(blk[j])):
+                                    first_store = j
+                                    break
+                            if first_store is None:
+                                continue    # stored elsewhere: give up
+                            late = False
+                            for j in range(first_store, len(blk)):
+                                for m in ast.walk(blk[j]):
+                                    if isinstance(m, ast.Name) and \
+                                            m.id == t and isinstance(
+                                                m.ctx, ast.Load):
+                                        if j > first_store or not \
+                                                isinstance(blk[j],
+                                                           ast.Assign):
+                                            late = True
+                            outside = sum(
+                                1 for m in ast.walk(fn)
+                                if isinstance(m, ast.Name) and m.id == t
+                                and isinstance(m.ctx, ast.Load)) - sum(
+                                1 for y in blk for m in ast.walk(y)
+                                if isinstance(m, ast.Name) and m.id == t
+                                and isinstance(m.ctx, ast.Load))
+                            if late or outside:
+                                continue
+                        names = {m.id for m in ast.walk(e)
+                                 if isinstance(m, ast.Name)}
+                        if t in names:
+                            continue
+                        # something along the access path is changed in
+                        # place by a method call: leave the local alone
+                        # (a Subscript read could see another element)
+                        if isinstance(e, ast.Subscript) and (
+                                set(pre) | {cur.id}) & mutated:
+                            continue
+                        # every other name read must be stable: self, a
+                        # parameter that is not re-assigned, or a name
+                        # assigned once (incl. loop variables)
+                        if any(nm != 'self' and stores.get(nm, 0) > 1
+                               for nm in names):
+                            continue
+                        if any(nm in params and stores.get(nm, 0) > 0
+                               for nm in names):
+                            continue
+                        # attribute of self must not be re-bound here
+                        reads = [m for m in ast.walk(fn)
+                                 if isinstance(m, ast.Name) and m.id == t
+                                 and isinstance(m.ctx, ast.Load)]
+                        if not reads:
+                            continue
+                        # replace
+                        class R(ast.NodeTransformer):
+                            def visit_Name(self, node):
+                                if node.id == t and isinstance(
+                                        node.ctx, ast.Load):
+                                    return ast.copy_location(
+                                        copy.deepcopy(e), node)
+                                return node
+                        r = R()
+                        for b2 in _blocks(fn):
+                            for j, y in enumerate(b2):
+                                if y is not st:
+                                    b2[j] = r.visit(y)
+                        if len(blk) > 1:
+                            blk.remove(st)
+                        else:
+                            blk[blk.index(st)] = ast.copy_location(
+                                ast.Pass(), st)
+                        changed = True
+                        n += 1
+                        break
+                    if changed:
+                        break
+                if not changed:
+                    break
+    return n
+
+
+def append_loops_to_comprehensions(trees):
+    """``for v in IT: X.append(E)`` (the whole loop body, optionally under
+    one ``if``) -> ``X += [E for v in IT (if c)]``; then ``X = []`` directly
+    followed by ``X += L`` -> ``X = L``."""
+    n = 0
+    for tree in trees.values():
+        for fn in _fn_scopes(tree):
+            for blk in _blocks(fn):
+                for st in list(blk):
+                    if not (isinstance(st, ast.For) and not st.orelse and
+                            len(st.body) == 1):
+                        continue
+                    inner = st.body[0]
+                    conds = []
+                    if isinstance(inner, ast.If) and not inner.orelse and \
+                            len(inner.body) == 1:
+                        conds = [inner.test]
+                        inner = inner.body[0]
+                    if not (isinstance(inner, ast.Expr) and isinstance(
+                            inner.value, ast.Call)):
+                        continue
+                    c = inner.value
+                    if not (isinstance(c.func, ast.Attribute) and
+                            c.func.attr == 'append' and
+                            isinstance(c.func.value, ast.Name) and
+                            len(c.args) == 1 and not c.keywords):
+                        continue
+                    x = c.func.value.id
+                    # the list must not be read by the element or the
+                    # iterable (a comprehension would see the old list)
+                    if any(isinstance(m, ast.Name) and m.id == x
+                           for e in [c.args[0], st.iter] + conds
+                           for m in ast.walk(e)):
+                        continue
+                    comp = ast.ListComp(elt=c.args[0], generators=[
+                        ast.comprehension(target=st.target, iter=st.iter,
+                                          ifs=conds, is_async=0)])
+                    new = ast.Expr(value=ast.Call(func=ast.Attribute(
+                        value=ast.Name(id=x, ctx=ast.Load()), attr='extend',
+                        ctx=ast.Load()), args=[comp], keywords=[]))
+                    ast.copy_location(new, st)
+                    ast.fix_missing_locations(new)
+                    blk[blk.index(st)] = new
+                    n += 1
+                # X += [..]  ->  X.extend([..])   (certainly a list)
+                for st in list(blk):
+                    if isinstance(st, ast.AugAssign) and isinstance(
+                            st.op, ast.Add) and isinstance(
+                            st.target, ast.Name) and isinstance(
+                            st.value, (ast.List, ast.ListComp)):
+                        new = ast.Expr(value=ast.Call(func=ast.Attribute(
+                            value=ast.Name(id=st.target.id, ctx=ast.Load()),
+                            attr='extend', ctx=ast.Load()),
+                            args=[st.value], keywords=[]))
+                        ast.copy_location(new, st)
+                        ast.fix_missing_locations(new)
+                        blk[blk.index(st)] = new
+                        n += 1
+                # X = [] ; X.extend(L)  ->  X = L
+                i = 0
+                while i + 1 < len(blk):
+                    a, b = blk[i], blk[i + 1]
+                    i += 1
+                    tgt = None
+                    if isinstance(a, ast.Assign) and len(a.targets) == 1 \
+                            and isinstance(a.targets[0], ast.Name):
+                        tgt, val = a.targets[0], a.value
+                    elif isinstance(a, ast.AnnAssign) and isinstance(
+                            a.target, ast.Name) and a.value is not None:
+                        tgt, val = a.target, a.value
+                    if tgt is None or not (isinstance(val, ast.List) and
+                                           not val.elts):
+                        continue
+                    if isinstance(b, ast.Expr) and isinstance(
+                            b.value, ast.Call) and isinstance(
+                            b.value.func, ast.Attribute) and \
+                            b.value.func.attr == 'extend' and isinstance(
+                            b.value.func.value, ast.Name) and \
+                            b.value.func.value.id == tgt.id and \
+                            len(b.value.args) == 1 and isinstance(
+                            b.value.args[0], (ast.ListComp, ast.List)):
+                        new = ast.Assign(targets=[ast.Name(
+                            id=tgt.id, ctx=ast.Store())],
+                            value=b.value.args[0], type_comment=None)
+                        ast.copy_location(new, b)
+                        ast.fix_missing_locations(new)
+                        blk[i - 1:i + 1] = [new]
+                        i -= 1
+                        n += 1
+    return n
